@@ -179,24 +179,22 @@ Fixpoint split_on (sep : Z) (l : list Z) (cur : list Z) : list (list Z) :=
   | c :: r => if c =? sep then rev cur :: split_on sep r [] else split_on sep r (c :: cur)
   end.
 
-(* ptttype.NewBM: ids joined by '/' into a 39-byte array; running out of room is a slice-bounds panic *)
-Fixpoint new_bm_loop (first : bool) (ids : list (list Z)) (acc : list Z) (room : nat) : res (list Z) :=
+(* ptttype.NewBM: ids joined by '/' into a 39-byte array; an id that does not fit (with its separator) ends the list *)
+Fixpoint new_bm_loop (first : bool) (ids : list (list Z)) (acc : list Z) (room : nat) : list Z :=
   match ids with
-  | [] => Ok (acc ++ repeat 0 room)
+  | [] => acc ++ repeat 0 room
   | id :: r =>
       let ub := cprefix id in
-      if first then
-        if (length ub <=? room)%nat then new_bm_loop false r (acc ++ ub) (room - length ub) else Crash
-      else match room with
-           | O => Crash
-           | S room' => if (length ub <=? room')%nat then new_bm_loop false r (acc ++ [47] ++ ub) (room' - length ub) else Crash
-           end
+      let sep := if first then [] else [47] in
+      if (length sep + length ub <=? room)%nat
+      then new_bm_loop false r (acc ++ sep ++ ub) (room - (length sep + length ub))
+      else acc ++ repeat 0 room
   end.
-Definition new_bm (ids : list (list Z)) : res (list Z) := new_bm_loop true ids [] 39.
+Definition new_bm (ids : list (list Z)) : list Z := new_bm_loop true ids [] 39.
 
 Definition bm_pieces (bm : list Z) : list (list Z) := map (fixlen 13) (split_on 47 (cprefix bm) []).
 (* cache.SanitizeBMs *)
-Definition sanitize_bms (u : users) (bm : list Z) : res (list Z) :=
+Definition sanitize_bms (u : users) (bm : list Z) : list Z :=
   new_bm (filter (fun id => negb (search_user_raw u id =? 0)) (bm_pieces bm)).
 (* cache.ParseBMList: at most MAX_BMs uids, the rest -1 *)
 Definition uid_valid (x : Z) : bool := (1 <=? x) && (x <=? MAX_USERS).
@@ -329,9 +327,7 @@ Definition add_board_record (u : users) (s : st) (rec : slot) (os : list oracle)
 (* bbs.CreateBoard -> ptt.NewBoard -> mNewbrd *)
 Definition create_board (u : users) (s : st) (r : req) (os : list oracle) : outcome :=
   let name := fixlen 13 (r_name r) in
-  match new_bm (map (fixlen 13) (r_bms r)) with                                (* bbs.CreateBoard: ptttype.NewBM *)
-  | Crash => Crashed | Hang => Hung
-  | Ok bms =>
+  let bms := new_bm (map (fixlen 13) (r_bms r)) in                             (* bbs.CreateBoard: ptttype.NewBM *)
       if negb (bid_valid (r_cls r)) then Done E_BID 0 s os                     (* cache.GetBCache(clsBid) *)
       else
         let parent := gets (s_cache s) (r_cls r - 1) in
@@ -346,9 +342,7 @@ Definition create_board (u : users) (s : st) (r : req) (os : list oracle) : outc
               if in_dirs (s_dirs s) dname then Done E_MKDIR 0 s os
               else
                 let s1 := with_dirs s (dname :: s_dirs s) in
-                match sanitize_bms u bms with
-                | Crash => Crashed | Hang => Hung
-                | Ok pbm =>
+                let pbm := sanitize_bms u bms in
                     let rec := mk_rec name (build_title r) pbm (norm_attr r) (r_chess r) (norm_level r) (r_cls r) in
                     match add_board_record u s1 rec os with
                     | Done code bid s2 os' =>
@@ -356,9 +350,7 @@ Definition create_board (u : users) (s : st) (r : req) (os : list oracle) : outc
                         else Done code 0 (with_dirs s2 (remove_dir (s_dirs s2) dname)) os'   (* the directory just made is removed again *)
                     | x => x
                     end
-                end
-        end
-  end.
+        end.
 
 (* cache.ReloadBCache on a .BRD of whole slots *)
 Definition reload (file : list slot) (dirs : list (list Z)) (o : oracle) : option st :=
@@ -480,7 +472,7 @@ Definition run_case (args : list (list Z)) : list Z :=
           end
       end
   | [[3]; raw] => [ST_OK; if is_valid_name (fixlen 13 raw) then 1 else 0]
-  | [4] :: ids => wire (fun b => b) (new_bm (map (fixlen 13) ids))
+  | [4] :: ids => ST_OK :: new_bm (map (fixlen 13) ids)
   | [[5]; raw] => [ST_OK; if name_rule raw then 1 else 0]
   | _ => [ST_BADCASE]
   end.
